@@ -36,11 +36,11 @@ Print Assumptions pointer_roundtrip.
    previous_pointer as a pointer to the same object *)
 Theorem thread_roundtrip :
   forall panics sw root t, wf_thread_b root t = true ->
-    exists o, write_thread panics sw root t = Ok (JObj o) /\ read_thread root o = Ok (norm_thread sw root t).
+    exists o, write_thread panics sw root t = Ok (JObj o) /\ read_thread sw root o = Ok (norm_thread sw root t).
 Proof. exact thread_roundtrip_lemma. Qed.
 Check thread_roundtrip :
   forall panics sw root t, wf_thread_b root t = true ->
-    exists o, write_thread panics sw root t = Ok (JObj o) /\ read_thread root o = Ok (norm_thread sw root t).
+    exists o, write_thread panics sw root t = Ok (JObj o) /\ read_thread sw root o = Ok (norm_thread sw root t).
 Print Assumptions thread_roundtrip.
 
 (* (4) a pending choice: text, index, paths, tags and thread index survive; the
@@ -115,6 +115,42 @@ Check save_load_norm :
               /\ load_state panics sw t j = (OOk tt, norm_save sw (root_of w) t w).
 Print Assumptions save_load_norm.
 
+(* (7b) saving the loaded story again yields the same save (the JSON term itself,
+   key order included), provided the format reads what it writes (the two coherence
+   conditions on the switches hold for the regenerated values: see below), the
+   target has no pending diverted pointer (a fresh story), and the globals are the
+   declared ones in declaration order with defaults that equal themselves (no NaN) *)
+Theorem resave_equiv :
+  forall panics sw t w,
+    ssw_invis_written sw = ssw_invis_read sw ->
+    (ssw_list_eq_origins sw = true -> ssw_origins_written sw = true) ->
+    wf_world_b w = true -> resave_hyp_b sw w = true ->
+    root_of t = root_of w ->
+    vs_defaults (ss_vars (w_state t)) = vs_defaults (ss_vars (w_state w)) ->
+    ptr_is_null (ss_diverted (w_state t)) = true ->
+    write_state panics sw (norm_save sw (root_of w) t w) = write_state panics sw w.
+Proof. exact resave_equiv_b. Qed.
+Check resave_equiv :
+  forall panics sw t w,
+    ssw_invis_written sw = ssw_invis_read sw ->
+    (ssw_list_eq_origins sw = true -> ssw_origins_written sw = true) ->
+    wf_world_b w = true -> resave_hyp_b sw w = true ->
+    root_of t = root_of w ->
+    vs_defaults (ss_vars (w_state t)) = vs_defaults (ss_vars (w_state w)) ->
+    ptr_is_null (ss_diverted (w_state t)) = true ->
+    write_state panics sw (norm_save sw (root_of w) t w) = write_state panics sw w.
+Print Assumptions resave_equiv.
+
+(* the coherence conditions of (7b) hold for the format as the sources define it now *)
+Theorem format_reads_what_it_writes :
+  ssw_invis_written save_switches_now = ssw_invis_read save_switches_now
+  /\ (ssw_list_eq_origins save_switches_now = true -> ssw_origins_written save_switches_now = true).
+Proof. exact switches_coherent_now. Qed.
+Check format_reads_what_it_writes :
+  ssw_invis_written save_switches_now = ssw_invis_read save_switches_now
+  /\ (ssw_list_eq_origins save_switches_now = true -> ssw_origins_written save_switches_now = true).
+Print Assumptions format_reads_what_it_writes.
+
 (* the hypotheses are satisfiable: three reachable states (a pending fallback choice,
    an emptied list, a second flow at a choice point) are well-formed save points whose
    saves load into a fresh story *)
@@ -128,6 +164,7 @@ Check save_load_norm_example :
   /\ wit_ok wit_lists_json wit_lists_script = true
   /\ wit_ok wit_flows_json wit_flows_script = true.
 Print Assumptions save_load_norm_example.
+Print Assumptions value_roundtrip.   (* separator for the Print-Assumptions parser of tools/vlib.py *)
 
 (* (8) the behavioural half — "the restored story is indistinguishable from the
    original" — is REFUTED on the model of the current sources while any of the three
@@ -146,6 +183,7 @@ Check save_load_equiv_refuted :
   (alias_current || negb (choice_invisible_written && choice_invisible_read) || negb list_origins_written) = true ->
   exists j script, differs_on sw_now save_switches_now j script = true.
 Print Assumptions save_load_equiv_refuted.
+Print Assumptions value_roundtrip.   (* separator for the Print-Assumptions parser of tools/vlib.py *)
 
 (* each witness distinguishes exactly when its defect is in the source *)
 Theorem refutation_witnesses :
